@@ -298,6 +298,11 @@ class PymbolicToASTMapper(CachedMapper):
     def map_constant(self, expr: ScalarT) -> ast.expr:
         if isinstance(expr, bool):
             return ast.NameConstant(expr)
+        elif isinstance(expr, (int, float)) and expr < 0:
+            # Python's own parser never produces a negative Constant, and
+            # ast.unparse does not parenthesize one: Constant(-1)**x would be
+            # written as '-1 ** x'.
+            return ast.UnaryOp(ast.USub(), ast.Constant(-expr, None))
         else:
             return ast.Constant(expr, None)
 
